@@ -1,19 +1,23 @@
 #!/usr/bin/env python3
 """mkmutant.py <name> <repo-relative-file> <old> <new> [<file2> <old2> <new2> ...]
-Writes /verif/mutants/<name>.patch (git-apply format) replacing exactly one occurrence of old by new."""
+Writes /verif/mutants/<name>.patch (git-apply format); every <old> must occur exactly once; several triples may
+name the same file (applied in order, one diff per file)."""
 import difflib, sys, os
 name = sys.argv[1]
 rest = sys.argv[2:]
-out = []
+orig, cur, order = {}, {}, []
 while rest:
     rel, old, new = rest[:3]
     rest = rest[3:]
-    path = os.path.join('/repo', rel)
-    src = open(path).read()
+    if rel not in orig:
+        orig[rel] = cur[rel] = open(os.path.join('/repo', rel)).read()
+        order.append(rel)
     old = old.encode().decode('unicode_escape')
     new = new.encode().decode('unicode_escape')
-    assert src.count(old) == 1, f'{rel}: {src.count(old)} occurrences of {old!r}'
-    dst = src.replace(old, new)
-    out.extend(difflib.unified_diff(src.splitlines(True), dst.splitlines(True), 'a/' + rel, 'b/' + rel))
+    assert cur[rel].count(old) == 1, f'{rel}: {cur[rel].count(old)} occurrences of {old!r}'
+    cur[rel] = cur[rel].replace(old, new)
+out = []
+for rel in order:
+    out.extend(difflib.unified_diff(orig[rel].splitlines(True), cur[rel].splitlines(True), 'a/' + rel, 'b/' + rel))
 open(f'/verif/mutants/{name}.patch', 'w').write(''.join(out))
 print(''.join(out))
